@@ -17,6 +17,7 @@ import re
 
 from ..cfront import lib_rt_functions
 from ..index import AnalysisError, get_index, norm
+from ..cfg import call_name
 from ..report import Check
 from .c06 import pass_order
 
@@ -276,6 +277,9 @@ def run(chk: Check, only_numeric: bool = False) -> None:
         run_defaults_chain(chk, ix)
         run_silent_errors(chk, ix, funcs, sites)
         run_specializer_arg_order(chk, ix)
+        run_finally_return_register(chk, ix)
+        run_lib_rt_sizes_and_signs(chk, ix, funcs)
+        run_codec_fast_paths(chk, ix)
         pass_order(chk, ix)
 
 
@@ -690,3 +694,148 @@ def run_heap_tag_construction(chk: Check, ix, funcs) -> None:
                 r.violation(key, f"mypyc/lib-rt ({name})", f"`((CPyTagged)obj) | CPY_INT_TAG` is evaluated {'under ' + str(sorted(gn)) if site['n_guards'] else 'unconditionally'} without a test that the value is too big for a short int: a result that happens to be small is boxed, and compiled `==`, `if x:`, indexing and conversions to native ints then answer wrongly")
     if n < 5:
         raise AnalysisError(f"only {n} boxed-int construction sites found in lib-rt (pattern `(CPyTagged)ptr | 1` no longer recognised?)")
+
+
+def run_finally_return_register(chk: Check, ix) -> None:
+    """R05.12: the register that carries a pending `return` through a finally block is reset on the other entries."""
+    r = chk.rule("R05.12", "mypyc/irbuild/statement.py lowers try/finally (and `with`) by routing three entries into the finally block: normal completion (`main_entry`), an exception (`err_handler`) and a `return` in the body (`return_entry`, the value parked in `ret_reg`). After the finally body `ret_reg` not being the error value means `return it`. The register is per function (an environment attribute in generators), so the first two entries assign the error value to it — otherwise a `return` that was abandoned because the finally body raised is replayed by a later pass through the same statement — and the return entry does not. Both lowerings (try_finally_entry_blocks and the await-in-finally variant) are siblings and must agree", floor=4)
+    m = ix.module("mypyc.irbuild.statement")
+    found = 0
+    for f in m.functions.values():
+        names = {n.id for n in ast.walk(f.node) if isinstance(n, ast.Name)} | {a.arg for a in f.node.args.args}
+        if not {"ret_reg", "main_entry", "err_handler", "return_entry"} <= names:
+            continue
+        # linear segments of the function body: activate_block(X) ... next activate_block
+        segs: dict[str, list[ast.stmt]] = {}
+        cur = None
+        has_act = False
+        for st in f.node.body:
+            act = None
+            if isinstance(st, ast.Expr) and isinstance(st.value, ast.Call) and call_name(st.value) == "activate_block" and st.value.args and isinstance(st.value.args[0], ast.Name):
+                act = st.value.args[0].id
+            if act is not None:
+                cur = act
+                has_act = True
+                segs.setdefault(cur, [])
+            elif cur is not None:
+                segs[cur].append(st)
+        if not has_act or "main_entry" not in segs:
+            continue
+        found += 1
+
+        def resets(stmts) -> bool:
+            for s in stmts:
+                for c in ast.walk(s):
+                    if isinstance(c, ast.Call) and call_name(c) == "assign" and c.args and isinstance(c.args[0], ast.Name) and c.args[0].id == "ret_reg" and any(isinstance(x, ast.Name) and x.id == "LoadErrorValue" for x in ast.walk(c)):
+                        return True
+            return False
+        for entry, want in (("main_entry", True), ("err_handler", True), ("return_entry", False)):
+            if entry not in segs:
+                r.violation(f"{f.name}: the `{entry}` block is built here", f.loc(), f"no builder.activate_block({entry}) at the top level of the function")
+                continue
+            key = f"{f.name}: `{entry}` {'resets' if want else 'keeps'} the pending return value"
+            if resets(segs[entry]) == want:
+                r.ok(key, f.loc(segs[entry][0]) if segs[entry] else f.loc())
+            elif want:
+                r.violation(key, f.loc(segs[entry][0]) if segs[entry] else f.loc(), f"the {entry} block goes on to the finally body without `builder.assign(ret_reg, LoadErrorValue(...))`: in a loop, after a `return` whose finally body (or __exit__) raised and was caught, the next pass that leaves the try body {'normally' if entry == 'main_entry' else 'by an exception'} still finds the old value in ret_reg and returns it (CPython carries on / propagates the exception)")
+            else:
+                r.violation(key, f.loc(segs[entry][0]) if segs[entry] else f.loc(), "the return entry overwrites ret_reg with the error value: `return x` inside try/finally falls through after the finally body")
+    if found < 2:
+        raise AnalysisError(f"statement.py: {found} try/finally lowerings with main_entry/err_handler/return_entry found (expected 2)")
+
+
+def run_lib_rt_sizes_and_signs(chk: Check, ix, funcs) -> None:
+    """R05.13 / R05.14: lib-rt never hands a possibly negative size to a bytes constructor; sign tests on indexes include 0 on the right side."""
+    r13 = chk.rule("R05.13", "lib-rt (clang AST), functions CPy*: the size passed to PyBytes_FromStringAndSize / PyByteArray_FromStringAndSize is not a local computed as a difference (`end - start`) nor an integer parameter unless the function compares that value with 0: CPython answers `b[2:1]` with b'' and `(1).to_bytes(-1, 'big')` with ValueError, the constructors answer a negative size with SystemError", floor=6)
+    n = 0
+    for name, e in sorted(funcs.items()):
+        if not name.startswith("CPy"):
+            continue
+        ptypes = dict(zip(e.get("param_names") or [], e.get("params") or []))
+        for i, site in enumerate(e.get("alloc_size_sites") or []):
+            n += 1
+            key = f"{name}: size of {site['fn']} call #{i + 1} cannot be negative"
+            bad = []
+            for nm, d in site["names"].items():
+                risky = d["origin"] == "sub" or (d["origin"] == "param" and ptypes.get(nm) in ("Py_ssize_t", "int64_t", "int32_t", "int", "long", "long long", "size_t", "CPyTagged"))
+                if risky and not d["zero_compared"]:
+                    bad.append((nm, d["origin"]))
+            if site.get("has_sub") and not site["names"]:
+                bad.append(("<expression>", "sub"))
+            if not bad:
+                r13.ok(key, f"mypyc/lib-rt:{name}")
+            else:
+                nm, org = bad[0]
+                r13.violation(key, f"mypyc/lib-rt:{name}", f"the size `{nm}` is {'a difference of two bounds' if org == 'sub' else 'an integer parameter'} and the function never compares it with 0: a slice with start > end / a negative length reaches the constructor (SystemError: Negative size passed to ...) where CPython returns an empty object / raises ValueError")
+    if n < 6:
+        raise AnalysisError(f"only {n} sized bytes constructor calls found in CPy* functions")
+    r14 = chk.rule("R05.14", "lib-rt (clang AST): a sign test on an integer parameter named `index` is `index >= 0` or `index < 0` (0 is a valid, non-negative index); `index > 0` / `index <= 0` puts index 0 on the side of the negative indexes (`lst[i] = v` with i == 0 on an empty list was adjusted by the size and stored out of bounds). Sibling functions (CPyList_GetItemInt64 / CPyList_SetItemInt64 / ...Borrow, the *_AdjustIndex / *_RangeCheck helpers, the byte readers and vec pops) agree", floor=25)
+    for name, e in sorted(funcs.items()):
+        zc = [z for z in e.get("zero_compares") or [] if z["param"] in ("index", "idx")]
+        if not zc:
+            continue
+        ops = sorted({z["op"] for z in zc})
+        key = f"{name}: sign tests on `index` are >= 0 / < 0"
+        if set(ops) <= {">=", "<"}:
+            r14.ok(key, f"mypyc/lib-rt:{name}")
+        else:
+            z = [z for z in zc if z["op"] not in (">=", "<")][0]
+            r14.violation(key, f"mypyc/lib-rt:{name}:{z['line']}", f"`index {z['op']} 0` at line {z['line']}: index 0 is treated like a negative index (or excluded from the non-negative ones); the sibling helpers test `index >= 0` / `index < 0`")
+
+
+def run_codec_fast_paths(chk: Check, ix) -> None:
+    """R05.15: the compile-time choice of a codec fast path accepts exactly names CPython resolves to that codec."""
+    import codecs
+    r = chk.rule("R05.15", "irbuild/specialize.py str_encode_fast_path / bytes_decode_fast_path pick a C fast path from a literal encoding name: (a) the name is normalised only by case folding and by renaming separators (`.replace(x, y)` with non-empty y) — CPython never deletes separators (`'ut_f8'` is a LookupError, not UTF-8); (b) every alias listed for a fast path is an alias of that codec in Python's encodings registry (checked against codecs.lookup of the analysing interpreter, a table look-up); (c) the two siblings accept the same aliases", floor=6)
+    chk.trusted.append("the alias table of the analysing interpreter's `encodings` package (R05.15b)")
+    m = ix.module("mypyc.irbuild.specialize")
+    want_codec = {"utf8": "utf-8", "ascii": "ascii", "latin1": "iso8859-1"}
+    accepted = {}
+    for fname in ("str_encode_fast_path", "bytes_decode_fast_path"):
+        f = m.functions.get(fname)
+        if f is None:
+            raise AnalysisError(f"specialize.{fname} not found")
+        # (a) the normalisation
+        norm_assign = [a for a in ast.walk(f.node) if isinstance(a, ast.Assign) and len(a.targets) == 1 and norm(a.targets[0]) == "encoding" and isinstance(a.value, ast.Call) and "lower" in norm(a.value)]
+        if not norm_assign:
+            raise AnalysisError(f"{fname}: normalisation of `encoding` not found")
+        deletions = [c for c in ast.walk(norm_assign[0].value) if isinstance(c, ast.Call) and call_name(c) == "replace" and len(c.args) == 2 and isinstance(c.args[1], ast.Constant) and c.args[1].value == ""]
+        key = f"{fname}: the encoding name is normalised without deleting characters"
+        if deletions:
+            r.violation(key, f.loc(norm_assign[0]), f"`{norm(norm_assign[0].value)}` deletes separators: 'ut_f8', 'u-8', 'l_1' select a fast path although CPython raises LookupError for them")
+        else:
+            r.ok(key, f.loc(norm_assign[0]))
+        renames = {c.args[0].value: c.args[1].value for c in ast.walk(norm_assign[0].value) if isinstance(c, ast.Call) and call_name(c) == "replace" and len(c.args) == 2 and all(isinstance(a, ast.Constant) for a in c.args)}
+        # (b) the alias lists
+        acc = {}
+        for i in ast.walk(f.node):
+            if isinstance(i, ast.If) and isinstance(i.test, ast.Compare) and norm(i.test.left) == "encoding" and isinstance(i.test.ops[0], ast.In) and isinstance(i.test.comparators[0], (ast.List, ast.Tuple, ast.Set)):
+                prim = next((norm(c.args[0]) for c in ast.walk(ast.Module(body=i.body, type_ignores=[])) if isinstance(c, ast.Call) and call_name(c) == "call_c" and c.args), None)
+                if prim is None:
+                    continue
+                codec = next((v for k, v in want_codec.items() if k in prim), None)
+                if codec is None:
+                    raise AnalysisError(f"{fname}: cannot tell the codec of primitive {prim}")
+                names = [e.value for e in i.test.comparators[0].elts if isinstance(e, ast.Constant)]
+                acc[codec] = set(names)
+                bad = []
+                for nm in names:
+                    try:
+                        got = codecs.lookup(nm).name
+                    except LookupError:
+                        got = None
+                    if got != codec:
+                        bad.append((nm, got))
+                key = f"{fname}: aliases of the {codec} fast path are {codec} aliases in CPython"
+                if bad:
+                    r.violation(key, f.loc(i), f"{bad[0][0]!r} selects the {codec} fast path but CPython resolves it to {bad[0][1] or 'LookupError'}")
+                else:
+                    r.ok(key, f.loc(i))
+        accepted[fname] = ({k: {x.replace("-", "_") for x in v} for k, v in acc.items()}, renames)
+    a, b = accepted["str_encode_fast_path"][0], accepted["bytes_decode_fast_path"][0]
+    key = "str.encode and bytes.decode fast paths accept the same aliases"
+    if a == b:
+        r.ok(key, m.functions["str_encode_fast_path"].loc())
+    else:
+        diff = {k: sorted(a.get(k, set()) ^ b.get(k, set())) for k in set(a) | set(b) if a.get(k) != b.get(k)}
+        r.violation(key, m.functions["str_encode_fast_path"].loc(), f"the alias sets differ (separators ignored): {diff}")
